@@ -1,11 +1,12 @@
-"""C17 plug-in: the same program and goal analysed under several option vectors.
+"""C17 plug-in: the same history of analyses performed twice in pristine interpreters — once under
+an option vector V, once under the default vector — and compared goal by goal.
 
-The options are process-global module attributes read at three pipeline phases, so they are
-applied through the real `settings` seam, per session, inside one interpreter in which sessions with
-different vectors are interleaved step by step (settings churn between any two steps).  Oracle: the
-default vector alone in a pristine interpreter.  Attribution: a deviation counts for C17 only if the
-deviating vector *alone* in a pristine interpreter deviates too; otherwise it is history dependence
-(C20's business) and is only noted.
+The options are process-global module attributes read at three pipeline phases, so they are applied
+through the real `settings` seam.  A history is 1-3 programs analysed one after the other (or with
+interleaved steps) in one interpreter, as one CLI call over several files or a notebook does; both
+worlds execute the same schedule, so a difference between them is an effect of the options alone —
+including effects that need an earlier analysis in the same process to show (a cache keyed without
+the program, say).  History dependence under *one* vector is C20's property and is not judged here.
 """
 import copy
 import hashlib
@@ -14,63 +15,65 @@ import os
 import random as _random
 
 from . import gen, canon
-from .past import render_program, rename_vars, num, var
+from .past import render_program, num, var
 from . import check_c20 as c20
 
 PROPERTY = "C17"
-BATCH = {"quick": 5, "thorough": 8}
-RUNS = {"quick": 140, "thorough": 5000}
+BATCH = {"quick": 6, "thorough": 8}
+RUNS = {"quick": 168, "thorough": 6000}
 TIMEOUT = 1500
 LEVEL = "exploration"
 FIXED_BATCHES = True
 batch_hashseed = c20.batch_hashseed
 ASSUMPTIONS = [
-    "reference: the same goal under the default option vector, alone in a pristine interpreter (PYTHONHASHSEED=0)",
-    "strategy/representation options (cond2arithm, transform_categoricals, solver choice, explicit types equal to the inferred ones, "
-    "type_fp_iterations) must give exactly equal values whenever both sides succeed; one side refusing is not a violation",
+    "reference: the same history of analyses under the default option vector in a pristine interpreter with the same hash seed",
+    "strategy/representation options (cond2arithm, transform_categoricals, solver choice, explicit types equal to the inferred ones with "
+    "inference disabled, type_fp_iterations) must give exactly equal values whenever both sides succeed; one side refusing is not a violation",
     "numeric-root options: is_exact=True implies exact equality; any difference implies is_exact=False; deviation bound 1e-3 relative "
     "for n<=7 at eps<=1e-6 is deliberately loose (gross errors only)",
     "trivial_guard is excluded (changes meaning by design); exact_func_moments is not a C17 option (only subject to C20)",
-    "known finding F3 (C05) makes Polar's results wrong for programs in which a variable is assigned twice under a loop guard; "
-    "those results are equally wrong under every option vector and the default-vector reference inherits them",
+    "known finding F3 (C05) makes some results wrong for programs in which a variable is assigned twice under a loop guard; the same "
+    "wrong typing is used under every option vector except explicit types, where only original variables can be declared",
 ]
 
 
-def option_vector(rng):
+# ---------------------------------------------------------------- option vectors
+def option_vector(rng, bias=None):
     v = {}
     r = rng.random()
-    if r < 0.55:
-        # representation / strategy only
-        if rng.random() < 0.4:
+    numeric = r >= 0.6 if bias is None else (bias == "linear" and rng.random() < 0.6)
+    if not numeric:
+        if rng.random() < (0.8 if bias == "categorical" else 0.3):
             v["transform_categoricals"] = True
-        if rng.random() < 0.4:
+        if rng.random() < (0.7 if bias == "branchy" else 0.35):
             v["cond2arithm"] = True
-        if rng.random() < 0.25:
-            v["type_fp_iterations"] = rng.choice([1, 2, 5, 100])
-        if rng.random() < 0.25:
-            v["_force_cyclic"] = True
         if rng.random() < 0.2:
+            v["type_fp_iterations"] = rng.choice([1, 2, 5, 100])
+        if rng.random() < (0.5 if bias == "linear" else 0.2):
+            v["_force_cyclic"] = True
+        if rng.random() < (0.4 if bias == "branchy" else 0.15):
             v["_explicit_types"] = True
         if not v:
-            v[rng.choice(["transform_categoricals", "cond2arithm"])] = True
+            v[rng.choice(["transform_categoricals", "cond2arithm", "_force_cyclic"])] = True
     else:
-        if rng.random() < 0.6:
+        if rng.random() < 0.7:
             v["numeric_roots"] = True
-        if rng.random() < 0.5 or not v:
+        if rng.random() < 0.4 or not v:
             v["numeric_croots"] = True
-        v["numeric_eps"] = rng.choice([1e-6, 1e-10, 1e-10])
-        if rng.random() < 0.3:
+        v["numeric_eps"] = rng.choice([1e-3, 1e-6, 1e-10, 1e-10])
+        if rng.random() < 0.2:
             v["cond2arithm"] = True
-        if rng.random() < 0.3:
+        if rng.random() < 0.6:
             v["_force_cyclic"] = True
     return v
 
 
+# ---------------------------------------------------------------- targeted program generators
 def linear_system_program(rng):
-    """deterministic or mildly probabilistic linear loops with interesting characteristic roots:
-    rotations (complex roots), Fibonacci (irrational), nilpotent chains (zero roots), repeated roots"""
-    kind = rng.choice(["rotation", "fib", "nilpotent", "repeated", "random", "random", "tribonacci", "rot-scaled"])
-    names = ["x", "y", "z", "w"]
+    """linear loops whose characteristic polynomial has complex / irrational / zero / repeated roots, optionally
+    extended by accumulators and counters (repeated root 1 next to the block's roots)"""
+    kind = rng.choice(["rotation", "fib", "nilpotent", "repeated", "random", "random", "tribonacci", "rot-scaled", "fib", "singular"])
+    names = ["x", "y", "z"]
     if kind == "rotation":
         vs, M = names[:2], [[0, -1], [1, 0]]
     elif kind == "rot-scaled":
@@ -81,13 +84,16 @@ def linear_system_program(rng):
         vs, M = names[:3], [[0, 1, 0], [0, 0, 1], [1, 1, 1]]
     elif kind == "nilpotent":
         vs, M = names[:3], [[0, 1, 0], [0, 0, 1], [0, 0, 0]]
+    elif kind == "singular":
+        vs, M = names[:2], [[0, rng.choice([-2, 1, 2])], [0, rng.choice([0, 1])]]
     elif kind == "repeated":
         vs, M = names[:2], [[2, 1], [0, 2]]
     else:
         k = rng.choice([2, 2, 3])
         vs = names[:k]
         M = [[rng.choice([-2, -1, 0, 0, 1, 1, 2]) for _ in range(k)] for _ in range(k)]
-    init = [["simul", vs, [num(rng.choice([0, 1, 1, 2, -1])) for _ in vs]]] if rng.random() < 0.5 else [["assign", v, num(rng.choice([0, 1, 1, 2, -1]))] for v in vs]
+    vals = [rng.choice([0, 1, 1, 2, -1]) for _ in vs]
+    init = [["simul", vs, [num(v) for v in vals]]] if rng.random() < 0.5 else [["assign", v, num(x)] for v, x in zip(vs, vals)]
 
     def row(r):
         e = None
@@ -98,88 +104,118 @@ def linear_system_program(rng):
             e = t if e is None else ["add", e, t]
         return e if e is not None else num(0)
 
-    rhs = [row(r) for r in M]
-    body = [["simul", vs, rhs]]
-    if rng.random() < 0.35:
-        # probabilistic perturbation keeps the system linear in expectation
+    body = [["simul", vs, [row(r) for r in M]]]
+    goals = list(vs)
+    extra = rng.random()
+    if extra < 0.3:
+        # counter and accumulator: (x-1)^2 times the block's polynomial
+        init += [["assign", "c", num(0)], ["assign", "s", num(rng.choice([0, 1]))]]
+        body = [["assign", "c", ["add", var("c"), num(1)]]] + body + [["assign", "s", ["add", ["add", var("s"), var(vs[0])], rng.choice([num(1), var("c")])]]]
+        goals = ["s"] + goals
+    elif extra < 0.5:
+        init += [["assign", "s", num(0)]]
+        body.append(["assign", "s", ["add", ["add", var("s"), var(rng.choice(vs))], num(1)]])
+        goals = ["s"] + goals
+    if rng.random() < 0.3:
         v = rng.choice(vs)
         body.append(["assign", v, ["choice", [[["add", var(v), num(1)], "1/2"], [var(v), None]]]])
     prog = {"types": [], "init": init, "guard": ["true"], "body": body}
-    # squares of systems with three variables mean degree >= 6 characteristic polynomials with nested radicals: minutes in sympy
-    return prog, vs, len(vs) <= 2
+    return prog, goals, len(vs) <= 2 and extra >= 0.5
+
+
+def categorical_program(rng):
+    """top-level categorical assignments with >= 3 branches (the shape transform_categoricals rewrites), conditions on them"""
+    k = rng.choice([3, 3, 4])
+    probs = gen.rand_probs(rng, k)
+    vals = rng.sample([0, 1, 2, 3, 4, 5], k)
+    init = [["assign", "c", num(rng.choice(vals))], ["assign", "x", num(rng.choice([0, 1, 2]))], ["assign", "y", num(0)]]
+    items = [[num(v), gen.fstr(p)] for v, p in zip(vals, probs)]
+    if rng.random() < 0.5:
+        items[-1][1] = None
+    body = [["assign", "c", ["choice", items]]]
+    k2 = rng.choice([2, 3, 3])
+    p2 = gen.rand_probs(rng, k2)
+    steps = rng.sample([-2, -1, 0, 1, 2, 3], k2)
+    it2 = [[["add", var("x"), num(st)] if st else var("x"), gen.fstr(p)] for st, p in zip(steps, p2)]
+    if rng.random() < 0.5:
+        it2[-1][1] = None
+    body.append(["assign", "x", ["choice", it2]])
+    r = rng.random()
+    if r < 0.5:
+        body.append(["if", [[["cmp", var("c"), "==", num(vals[0])], [["assign", "y", ["add", var("y"), var("x")]]]],
+                            [["cmp", var("c"), rng.choice(["==", ">="]), num(vals[1])], [["assign", "y", ["sub", var("y"), num(1)]]]]],
+                     [["assign", "y", ["add", var("y"), var("c")]]] if rng.random() < 0.6 else None])
+    elif r < 0.8:
+        body.append(["assign", "y", ["add", var("y"), ["mul", var("c"), var("c")]]])
+    prog = {"types": [], "init": init, "guard": ["true"], "body": body}
+    return prog, ["x", "y", "c"] + (["x**2"] if rng.random() < 0.4 else []) + (["c**2"] if rng.random() < 0.3 else [])
+
+
+def branchy_program(rng):
+    g = gen.C05Gen(rng)
+    prog = g.program()
+    names = sorted({s[1] for s in prog["init"] if s[0] == "assign"})
+    goals = []
+    for _ in range(rng.choice([1, 2, 3])):
+        v = rng.choice(names)
+        goals.append(v if rng.random() < 0.5 else (f"{v}**2" if rng.random() < 0.6 else f"{v}*{rng.choice(names)}"))
+    return prog, sorted(set(goals))
 
 
 def _program_choice(rng):
     r = rng.random()
-    if r < 0.4:
+    if r < 0.2:
         cor = c20.corpus()["ok"]
         path = rng.choice(sorted(cor))
         goals = rng.sample(cor[path]["goals"], min(len(cor[path]["goals"]), rng.choice([1, 2, 2])))
-        return {"path": path}, goals, path
-    if r < 0.7:
-        prog, vs, squares = linear_system_program(rng)
+        return {"path": path}, goals, path, None
+    if r < 0.5:
+        prog, goals, squares = linear_system_program(rng)
         text = render_program(prog)
-        goals = rng.sample(vs, min(len(vs), 2))
+        goals = rng.sample(goals, min(len(goals), 2))
         if squares and rng.random() < 0.3:
-            goals.append(f"{vs[0]}**2")
-        return {"text": text, "ast": prog}, goals, "lin:" + hashlib.sha256(text.encode()).hexdigest()[:10]
-    prog = gen.gen_c05_program(rng)
-    names = sorted({s[1] for s in prog["init"] if s[0] == "assign"})
+            goals.append(f"{goals[0]}**2")
+        return {"text": text}, goals, "lin:" + hashlib.sha256(text.encode()).hexdigest()[:10], "linear"
+    if r < 0.7:
+        prog, goals = categorical_program(rng)
+        text = render_program(prog)
+        return {"text": text}, rng.sample(goals, min(len(goals), 3)), "cat:" + hashlib.sha256(text.encode()).hexdigest()[:10], "categorical"
+    prog, goals = branchy_program(rng)
     text = render_program(prog)
-    goals = []
-    for _ in range(rng.choice([1, 2])):
-        v = rng.choice(names)
-        goals.append(v if rng.random() < 0.6 else f"{v}**2")
-    return {"text": text, "ast": prog}, sorted(set(goals)), "gen:" + hashlib.sha256(text.encode()).hexdigest()[:10]
+    return {"text": text}, goals, "gen:" + hashlib.sha256(text.encode()).hexdigest()[:10], "branchy"
 
 
 def gen_case(seed, extra=None):
     rng = _random.Random(seed)
     tier = (extra or {}).get("tier", "quick")
-    program, goals, pid = _program_choice(rng)
-    nvec = rng.choice([2, 2, 3, 4])
+    nprog = rng.choice([1, 1, 1, 2, 2, 3])
+    progs = [_program_choice(rng) for _ in range(nprog)]
+    if nprog >= 2 and rng.random() < 0.3:
+        progs.append(progs[0])
+    bias = rng.choice([p[3] for p in progs])
+    vec = option_vector(rng, bias)
     sessions = []
-    for _ in range(nvec):
-        vec = option_vector(rng)
-        opts = {k: v for k, v in vec.items() if not k.startswith("_")}
-        s = {"kind": "lib", "pid": pid, "program": {k: v for k, v in program.items() if k != "ast"},
-             "goals": [{"monom": g, "kind": "raw"} for g in goals], "options": opts,
-             "api": "raw" if vec.get("_force_cyclic") or rng.random() < 0.5 else "common",
-             "force_cyclic": bool(vec.get("_force_cyclic")), "explicit_types": bool(vec.get("_explicit_types"))}
-        if s["explicit_types"]:
-            s["options"]["disable_type_inference"] = True
-        sessions.append(s)
+    for program, goals, pid, _ in progs:
+        sessions.append({"kind": "lib", "pid": pid, "program": program, "goals": [{"monom": g, "kind": "raw"} for g in goals],
+                         "api": "raw" if vec.get("_force_cyclic") or rng.random() < 0.5 else "common"})
     from .sessions import make_session
-    remaining = [make_session(s).step_names() for s in sessions]
+    remaining = [make_session(dict(s, options={})).step_names() for s in sessions]
     ptr = [0] * len(sessions)
     live = list(range(len(sessions)))
+    interleave = rng.random() < 0.3
     ops = []
     while live:
-        sid = rng.choice(live)
+        sid = rng.choice(live) if interleave else live[0]
         ops.append({"sid": sid, "step": remaining[sid][ptr[sid]], "pre": []})
         ptr[sid] += 1
         if ptr[sid] >= len(remaining[sid]):
             live.remove(sid)
-    return {"kind": "config-history", "sessions": sessions, "ops": ops, "world_flags": {}, "rng_seed": seed % 1000003,
-            "step_cap": 20 if tier == "quick" else 40, "seed": seed, "program_ast": program.get("ast")}
+    return {"kind": "config-pair", "sessions": sessions, "ops": ops, "vector": vec, "rng_seed": seed % 1000003,
+            "step_cap": 20 if tier == "quick" else 40, "seed": seed}
 
 
-def _default_spec(sess, goal):
-    return {"kind": "lib", "program": _plain_program(sess), "options": {}, "api": "common", "force_cyclic": False, "goals": [goal]}
-
-
-def _plain_program(sess):
-    p = sess.get("plain_program") or sess["program"]
-    return p
-
-
-def _alone_spec(sess, goal):
-    return {"kind": "lib", "program": sess["program"], "options": sess["options"], "api": sess.get("api", "raw"),
-            "force_cyclic": sess.get("force_cyclic", False), "goals": [goal]}
-
-
+# ---------------------------------------------------------------- execution
 def _with_types(program, typedefs, repo):
-    """source text with an explicit `types ... end` block equal to the inferred types of the original variables"""
     if "path" in program:
         with open(os.path.join(repo, program["path"])) as f:
             text = f.read()
@@ -205,123 +241,128 @@ def _rel_dev(ca, cb, upto=8):
     return worst
 
 
-def _judge_goal(sess, w, r):
-    """w: result under the session's vector; r: default-vector result.  -> (verdict, detail)"""
+def _judge_goal(vec, w, r):
+    """w: result under the vector; r: result under the default vector.  -> (verdict, detail)"""
     if w["status"] != "ok" or r["status"] != "ok":
         return "na", None      # one side refused / timed out: the property speaks of goals that succeed under both
     wd, rd = w["data"], r["data"]
-    numeric = bool(sess["options"].get("numeric_roots") or sess["options"].get("numeric_croots"))
+    numeric = bool(vec.get("numeric_roots") or vec.get("numeric_croots"))
     eq = canon.compare_closed_forms(wd["cf"], rd["cf"])
     if eq is None:
         return "inconclusive", None
+    shown = {k: v for k, v in vec.items()}
     if not numeric:
         if eq is False:
-            return "diff", {"what": "closed-form", "vector": sess["options"], "force_cyclic": sess.get("force_cyclic"),
-                            "explicit_types": sess.get("explicit_types"), "under_vector": wd["cf"]["vals"][0][:6], "default": rd["cf"]["vals"][0][:6]}
+            return "diff", {"what": "closed-form", "vector": shown, "under_vector": wd["cf"]["vals"][0][:7], "default": rd["cf"]["vals"][0][:7]}
         if wd["exact"] != rd["exact"]:
-            return "diff", {"what": "is_exact", "vector": sess["options"], "under_vector": wd["exact"], "default": rd["exact"]}
+            return "diff", {"what": "is_exact", "vector": shown, "under_vector": wd["exact"], "default": rd["exact"]}
         return "ok", None
     if not rd["exact"]:
         return "na", None
     if eq is False and wd["exact"]:
-        return "diff", {"what": "rounded-result-reported-exact", "vector": sess["options"], "under_vector": wd["cf"]["vals"][0][:6],
-                        "default": rd["cf"]["vals"][0][:6]}
+        return "diff", {"what": "rounded-result-reported-exact", "vector": shown, "under_vector": wd["cf"]["vals"][0][:7], "default": rd["cf"]["vals"][0][:7]}
     if eq is False:
         dev = _rel_dev(wd["cf"], rd["cf"])
-        if dev is not None and dev > 1e-3 and sess["options"].get("numeric_eps", 1e-10) <= 1e-6:
-            return "diff", {"what": "deviation-beyond-precision", "vector": sess["options"], "rel_dev_n_le_7": dev,
-                            "under_vector": wd["cf"]["vals"][0][:6], "default": rd["cf"]["vals"][0][:6]}
+        if dev is not None and dev > 1e-3 and vec.get("numeric_eps", 1e-10) <= 1e-6:
+            return "diff", {"what": "deviation-beyond-precision", "vector": shown, "rel_dev_n_le_7": dev,
+                            "under_vector": wd["cf"]["vals"][0][:7], "default": rd["cf"]["vals"][0][:7]}
     return "ok", None
+
+
+def _history(case, sessions):
+    return {"sessions": sessions, "ops": case["ops"], "world_flags": {}, "rng_seed": case["rng_seed"], "step_cap": case["step_cap"]}
 
 
 def run_case(case, extra=None):
     from . import world
     world.preload()
     cap = case.get("step_cap", 20)
-    rc = c20.ref_client()
     repo = os.environ.get("POLAR_REPO", "/repo")
-    out = {"kind": "config-history", "hashseed": os.environ.get("PYTHONHASHSEED"), "notes": []}
-    # resolve explicit-types sessions: the declared types are the ones the default run infers
-    for s in case["sessions"]:
-        if s.get("explicit_types") and not s.get("resolved"):
-            head = rc.get({"kind": "lib", "program": s["program"], "options": {}, "api": "common", "goals": []}, cap)
-            tds = None
-            try:
-                tds = head["steps"]["normalize"]["data"]["typedefs"]["vars"]
-            except Exception:  # noqa
-                pass
-            newp = _with_types(s["program"], tds, repo) if tds else None
-            s["plain_program"] = s["program"]
-            if newp is None:
-                s["explicit_types"] = False
-                s["options"].pop("disable_type_inference", None)
-            else:
-                s["program"] = newp
-            s["resolved"] = True
+    vec = case["vector"]
+    opts = {k: v for k, v in vec.items() if not k.startswith("_")}
+    out = {"kind": "config-pair", "hashseed": os.environ.get("PYTHONHASHSEED"), "notes": []}
     nops = len(case["ops"])
-    wres = world.fork_call(world.run_history, case, timeout=min(cap * (nops + 2) + 60, 12 * cap))
-    if wres.get("status") != "done":
-        out["outcome"] = "harness_error" if wres.get("status") == "harness_error" else "timeout"
-        out["trace"] = wres.get("trace")
+    tmo = min(cap * (nops + 2) + 60, 12 * cap)
+    # world D: the history under the default vector
+    sess_d = [dict(s, options={}, force_cyclic=False) for s in case["sessions"]]
+    wd = world.fork_call(world.run_history, _history(case, sess_d), timeout=tmo)
+    if wd.get("status") != "done":
+        out["outcome"] = "harness_error" if wd.get("status") == "harness_error" else "timeout"
+        out["trace"] = wd.get("trace")
+        return out
+    # world V: the same history under the vector (explicit types = the types world D inferred for the original variables)
+    if "sessions_v" in case:
+        sess_v = case["sessions_v"]
+    else:
+        sess_v = []
+        for sid, s in enumerate(case["sessions"]):
+            sv = dict(s, options=dict(opts), force_cyclic=bool(vec.get("_force_cyclic")))
+            if vec.get("_explicit_types"):
+                tds = None
+                for op, res in zip(case["ops"], wd["results"]):
+                    if op["sid"] == sid and op["step"] == "normalize" and res["status"] == "ok":
+                        tds = res["data"]["typedefs"]["vars"]
+                newp = _with_types(s["program"], tds, repo) if tds else None
+                if newp is not None:
+                    sv["program"] = newp
+                    sv["options"]["disable_type_inference"] = True
+                    sv["explicit_types"] = True
+            sess_v.append(sv)
+        case["sessions_v"] = sess_v
+    wv = world.fork_call(world.run_history, _history(case, sess_v), timeout=tmo)
+    if wv.get("status") != "done":
+        out["outcome"] = "harness_error" if wv.get("status") == "harness_error" else "timeout"
+        out["trace"] = wv.get("trace")
         return out
     problems = []
-    stats = {"compared": 0, "ok": 0, "na": 0, "inconclusive": 0, "history_only": 0}
+    stats = {"compared": 0, "ok": 0, "na": 0, "inconclusive": 0}
     pairs = []
-    for oi, (op, w) in enumerate(zip(case["ops"], wres["results"])):
+    for oi, (op, rv, rd) in enumerate(zip(case["ops"], wv["results"], wd["results"])):
         if not op["step"].startswith("goal:"):
             continue
-        sess = case["sessions"][op["sid"]]
+        sess = sess_v[op["sid"]]
         goal = sess["goals"][int(op["step"].split(":")[1])]
-        ref = rc.get(_default_spec(sess, goal), cap)
-        if ref.get("status") != "done" or "goal:0" not in ref["steps"]:
-            stats["na"] += 1
-            continue
-        r = ref["steps"]["goal:0"]
-        verdict, detail = _judge_goal(sess, w, r)
+        verdict, detail = _judge_goal(dict(vec, **({"_explicit_types": True} if sess.get("explicit_types") else {})), rv, rd)
         stats["compared"] += 1
         if verdict == "diff":
-            # attribution: does the vector alone in a pristine interpreter deviate as well?
-            alone = rc.get(_alone_spec(sess, goal), cap)
-            a = alone.get("steps", {}).get("goal:0") if alone.get("status") == "done" else None
-            v2, d2 = _judge_goal(sess, a, r) if a else ("inconclusive", None)
-            if v2 == "diff":
-                problems.append(dict(d2, op=oi, sid=op["sid"], goal=goal["monom"], pid=sess.get("pid"), session_kind="lib"))
-            else:
-                stats["history_only"] += 1
-                out["notes"].append(f"op {oi}: deviates inside the history only (history dependence is C20's property): {detail.get('what')}")
+            problems.append(dict(detail, op=oi, sid=op["sid"], goal=goal["monom"], pid=sess.get("pid"), session_kind="lib"))
         elif verdict == "ok":
             stats["ok"] += 1
-            if w["status"] == "ok":
-                pairs.append((sess.get("pid"), json.dumps(sess["options"], sort_keys=True), sess.get("force_cyclic"), sess.get("explicit_types"),
-                              goal["monom"], w["data"].get("solver"), r["data"].get("solver")))
+            pairs.append((sess.get("pid"), json.dumps(vec, sort_keys=True), goal["monom"]))
         elif verdict == "na":
             stats["na"] += 1
         else:
             stats["inconclusive"] += 1
-    # probes: did the option actually bite?
-    norm_sigs = {}
-    solvers = set()
-    for op, w in zip(case["ops"], wres["results"]):
-        if op["step"] == "normalize" and w["status"] == "ok":
-            norm_sigs[op["sid"]] = (w["data"].get("normalized_sig"), w["data"].get("n_body"))
-        if op["step"].startswith("goal:") and w["status"] == "ok":
-            solvers.add(w["data"].get("solver"))
-    statuses = [r["status"] for r in wres["results"]]
+    sig_v, sig_d, solvers = {}, {}, set()
+    for op, rv, rd in zip(case["ops"], wv["results"], wd["results"]):
+        if op["step"] == "normalize":
+            if rv["status"] == "ok":
+                sig_v[op["sid"]] = (rv["data"].get("normalized_sig"), rv["data"].get("n_body"))
+            if rd["status"] == "ok":
+                sig_d[op["sid"]] = (rd["data"].get("normalized_sig"), rd["data"].get("n_body"))
+        if op["step"].startswith("goal:") and rv["status"] == "ok":
+            solvers.add(rv["data"].get("solver"))
+    statuses = [r["status"] for r in wv["results"]]
     out.update({
         "outcome": "violation" if problems else "ok",
         "problems": problems[:5],
         "stats": stats,
-        "n_ops": nops,
+        "n_ops": 2 * nops,
         "statuses": {s: statuses.count(s) for s in set(statuses)},
         "pairs": sorted(set(pairs)),
-        "vectors": sorted({json.dumps(dict(s["options"], _fc=s.get("force_cyclic"), _et=s.get("explicit_types")), sort_keys=True) for s in case["sessions"]}),
+        "vectors": [json.dumps(vec, sort_keys=True)],
         "probes": {
-            "normal_forms_differ": 1 if len(set(norm_sigs.values())) > 1 else 0,
+            "normal_forms_differ": 1 if any(sig_v.get(k) != sig_d.get(k) for k in sig_v if k in sig_d) else 0,
             "cyclic_solver_used": 1 if "CyclicSolver" in solvers else 0,
-            "explicit_types_resolved": sum(1 for s in case["sessions"] if s.get("explicit_types")),
-            "numeric_vector": sum(1 for s in case["sessions"] if s["options"].get("numeric_roots") or s["options"].get("numeric_croots")),
+            "explicit_types_resolved": sum(1 for s in sess_v if s.get("explicit_types")),
+            "numeric_vector": 1 if (vec.get("numeric_roots") or vec.get("numeric_croots")) else 0,
+            "multi_program_history": 1 if len(case["sessions"]) > 1 else 0,
+            "transform_categoricals_vector": 1 if vec.get("transform_categoricals") else 0,
+            "cond2arithm_vector": 1 if vec.get("cond2arithm") else 0,
+            "force_cyclic_vector": 1 if vec.get("_force_cyclic") else 0,
         },
-        "digest": hashlib.sha256(json.dumps({"ops": case["ops"], "res": [c20._strip(r) for r in wres["results"]]}, sort_keys=True, default=str).encode()).hexdigest()[:16],
+        "digest": hashlib.sha256(json.dumps({"ops": case["ops"], "v": [c20._strip(r) for r in wv["results"]],
+                                             "d": [c20._strip(r) for r in wd["results"]]}, sort_keys=True, default=str).encode()).hexdigest()[:16],
     })
     desc = describe(case, problems[0] if problems else {})
     if problems:
@@ -332,16 +373,15 @@ def run_case(case, extra=None):
 
 
 def describe(case, problem):
-    s0 = case["sessions"][0]
-    src = s0["program"].get("path") or s0.get("plain_program", {}).get("path") or "<inline>"
-    lines = [f"program {src}; goals {[g['monom'] for g in s0['goals']]}"]
-    if "text" in (s0.get("plain_program") or s0["program"]):
-        lines.append((s0.get("plain_program") or s0["program"])["text"])
+    lines = [f"option vector {case['vector']} versus the default vector; history of {len(case['sessions'])} program(s)"]
     for i, s in enumerate(case["sessions"]):
-        lines.append(f"  session {i}: options={s['options']} force_cyclic={s.get('force_cyclic')} explicit_types={s.get('explicit_types')} api={s.get('api')}")
+        src = s["program"].get("path") or "<inline>"
+        lines.append(f"  program {i}: {src} goals={[g['monom'] for g in s['goals']]} api={s.get('api')}")
+        if "text" in s["program"]:
+            lines += ["      " + l for l in s["program"]["text"].splitlines()]
     lines.append("  schedule: " + " ".join(f"{o['sid']}:{o['step']}" for o in case["ops"]))
     if problem:
-        lines.append(f"  deviating: session {problem.get('sid')} goal {problem.get('goal')}")
+        lines.append(f"  deviating: program {problem.get('sid')} goal {problem.get('goal')}")
     return "\n".join(lines)
 
 
@@ -352,7 +392,6 @@ def vclass(res):
 
 
 def finding_signature(res, case):
-    p = res["problems"][0] if res.get("problems") else {}
     return {"class": vclass(res)}
 
 
@@ -360,33 +399,30 @@ def describe_violation(res):
     return json.dumps(res["problems"][0], default=str)[:900]
 
 
-def _variants(case, bad_sid):
+def _variants(case, bad_sid, bad_goal):
+    def fresh(c):
+        c.pop("sessions_v", None)
+        return c
+
     sids = sorted({o["sid"] for o in case["ops"]})
     for sid in sids:
         if sid != bad_sid:
-            c = copy.deepcopy(case)
+            c = fresh(copy.deepcopy(case))
             c["ops"] = [o for o in c["ops"] if o["sid"] != sid]
             yield c
-    # sequential schedule
-    c = copy.deepcopy(case)
+    c = fresh(copy.deepcopy(case))
     c["ops"] = sorted(c["ops"], key=lambda o: o["sid"])
     if c["ops"] != case["ops"]:
         yield c
-    # drop other goals
     for i, o in enumerate(case["ops"]):
-        if o["step"].startswith("goal:"):
-            c = copy.deepcopy(case)
+        if o["step"].startswith("goal:") and not (o["sid"] == bad_sid and case["sessions"][o["sid"]]["goals"][int(o["step"].split(":")[1])]["monom"] == bad_goal):
+            c = fresh(copy.deepcopy(case))
             del c["ops"][i]
             yield c
-    # drop single options of the deviating session
-    if bad_sid is not None:
-        for k in list(case["sessions"][bad_sid]["options"]):
-            c = copy.deepcopy(case)
-            del c["sessions"][bad_sid]["options"][k]
-            yield c
-        if case["sessions"][bad_sid].get("force_cyclic"):
-            c = copy.deepcopy(case)
-            c["sessions"][bad_sid]["force_cyclic"] = False
+    for k in list(case["vector"]):
+        if len(case["vector"]) > 1:
+            c = fresh(copy.deepcopy(case))
+            del c["vector"][k]
             yield c
 
 
@@ -400,7 +436,8 @@ def shrink(case, extra=None):
     improved = True
     while improved and steps < 40:
         improved = False
-        for cand in _variants(cur, curres["problems"][0].get("sid")):
+        p0 = curres["problems"][0]
+        for cand in _variants(cur, p0.get("sid"), p0.get("goal")):
             steps += 1
             r = run_case(cand)
             if vclass(r) == cls:
@@ -423,7 +460,6 @@ def summarize(results, tier):
     ops = 0
     status = Counter()
     samples = []
-    notes = 0
     for r in results:
         if r.get("outcome") not in ("ok", "violation"):
             continue
@@ -432,11 +468,10 @@ def summarize(results, tier):
         for k, v in (r.get("stats") or {}).items():
             stats[k] += v
         for p in r.get("pairs") or []:
-            triples.add(tuple(p[:5]))
+            triples.add(tuple(p))
         vectors.update(r.get("vectors") or [])
         hashseeds.add(r.get("hashseed"))
         ops += r.get("n_ops", 0)
-        notes += len(r.get("notes") or [])
         for k, v in (r.get("statuses") or {}).items():
             status[k] += v
         if len(samples) < 3 and r.get("case_desc") and (r.get("stats") or {}).get("ok", 0) >= 2:
@@ -444,18 +479,17 @@ def summarize(results, tier):
     return {
         "evaluations": len(results),
         "distinct_nontrivial": len(triples),
-        "rule": "one case = one program with 1-3 goals analysed in one interpreter by 2-4 interleaved sessions, each under its own option "
-                "vector applied through the real global `settings`; every goal result is compared with the default vector alone in a "
-                "pristine interpreter; distinct_nontrivial = distinct (program, option vector, goal) triples for which both sides succeeded "
-                "and were compared",
+        "rule": "one case = one history of 1-4 analyses (programs x goals) executed twice in pristine interpreters: under a swarm-drawn "
+                "option vector applied through the real global `settings`, and under the default vector, same schedule; every goal result "
+                "is compared; distinct_nontrivial = distinct (program, option vector, goal) triples for which both sides succeeded and "
+                "were compared",
         "samples": samples or [{"note": "no sample recorded"}],
         "outcomes": dict(oc),
         "goal_comparisons": dict(stats),
         "distinct_option_vectors": len(vectors),
         "logical_time_ops": ops,
-        "op_statuses": dict(status),
+        "op_statuses_under_vector": dict(status),
         "probes": dict(sorted(probes.items())),
-        "history_only_deviation_notes": notes,
         "distinct_world_hashseeds": len(hashseeds),
         "real_components": ["settings (global seam)", "inputparser (transform_categoricals)", "program.normalize_program (cond2arithm, type inference, "
                             "disable_type_inference)", "recurrences.solver.RecurrenceSolver / CyclicSolver / AcyclicSolver", "utils.expressions.get_all_roots"],
@@ -463,7 +497,8 @@ def summarize(results, tier):
     }
 
 
-REQUIRED = ["normal_forms_differ", "cyclic_solver_used", "numeric_vector", "explicit_types_resolved"]
+REQUIRED = ["normal_forms_differ", "cyclic_solver_used", "numeric_vector", "explicit_types_resolved", "multi_program_history",
+            "transform_categoricals_vector", "cond2arithm_vector", "force_cyclic_vector"]
 
 
 def probe_failures(cov):
